@@ -1,12 +1,14 @@
 (* The single entry point evaluated by the extracted driver and by vm_compute. *)
 From ASV Require Import Base.
 From ASV.C04 Require Model.
+From ASV.C14 Require Model.
 
 Definition run (l : list Z) : list Z :=
   match l with
   | p :: fn :: payload =>
     match p with
     | 4 => C04.Model.run_C04 fn payload
+    | 14 => C14.Model.run_C14 fn payload
     | _ => bad_input
     end
   | _ => bad_input
